@@ -226,7 +226,7 @@ class Ctx(_CtxBase):
                 self.undecided.append((label, self.solver.reason_unknown()))
             else:
                 viol.append(
-                    dict(label=label, info=info, inputs=self._model_inputs(z3.Not(e)), decisions=list(self.trace))
+                    dict(label=label, info=_info_plain(info), inputs=self._model_inputs(z3.Not(e)), decisions=list(self.trace))
                 )
         return viol
 
@@ -287,6 +287,18 @@ class Ctx(_CtxBase):
             out[name] = v
         self.solver.pop()
         return out
+
+
+def _info_plain(info):
+    if isinstance(info, dict):
+        return {k: _info_plain(v) for k, v in info.items()}
+    if isinstance(info, (list, tuple)):
+        return [_info_plain(v) for v in info]
+    if isinstance(info, (SBool, SNum, SBV)):
+        return str(z3.simplify(info.e))
+    if isinstance(info, (str, int, float, bool)) or info is None:
+        return info
+    return repr(info)
 
 
 def _pyval(v, kind):
@@ -732,4 +744,6 @@ def concretize_desc(x):
         return float(x)
     if isinstance(x, (list, tuple)):
         return [concretize_desc(y) for y in x]
+    if isinstance(x, dict):
+        return {k: concretize_desc(v) for k, v in x.items()}
     return x
